@@ -328,7 +328,11 @@ func (c14Engine) Gen(g *Gen) {
 		ct.Tpl, ct.Fails = true, true
 		ta := mk("app", "a", "x")
 		ta.Tpl, ta.Fails = true, true
-		bad = append(bad, t, ct, ta)
+		// a failing template for a custom file whose target already exists and is not to be overwritten:
+		// skipped or not, the template error stops the run
+		ctpre := mk("custom", "pre", "x")
+		ctpre.Tpl, ctpre.Fails = true, true
+		bad = append(bad, t, ct, ta, ctpre)
 		// an illegal name on every generator kind, plain and template (whose template renders fine)
 		for _, k := range []string{"file", "app", "inj"} {
 			for _, tpl := range []bool{false, true} {
